@@ -127,6 +127,12 @@ class Relay:
         if not (had_edns and self.edns) and (self.limit is not None or not self.edns):
             eff = 512
         qtype = p["qd"][0][1] if p["qd"] else 0
+        if self.hi == "reject":
+            # the "reject" variant applies to names / text in answers as well
+            for (n, t, c, ttl, v, raw) in p["an"]:
+                txt = v if t in (P.T_CNAME, P.T_TXT) else (v[1] if t == P.T_MX else (v[3] if t == P.T_SRV else b""))
+                if any(ch >= 0x80 for ch in txt):
+                    return P.header(oid, 0x8182, 1, 0) + P.question(oname, qtype)
         rds = []
         for (n, t, c, ttl, v, raw) in p["an"]:
             if t == P.T_CNAME:
@@ -349,6 +355,9 @@ class World:
                 break
             now_seen = (len(self.tunw_c), len(self.tunw_s))
             busy = getattr(self, "pending_c", []) or getattr(self, "pending_s", []) or self.c_state.get("out", "0/").split("/")[0] != "0"
+            sl = next((x.slots for x in reversed(self.s.steps[-5:]) if x.slots), {})
+            if any(d["out"].split("/")[0] != "0" or int(d["oq"].split("/")[1]) > 0 for d in sl.values()):
+                busy = True        # the server still has downstream data for the client (it goes out with the client's next query)
             if now_seen != seen or busy:
                 seen, quiet_since = now_seen, self.ms
             elif self.ms - quiet_since > 3000:
